@@ -67,6 +67,7 @@ type env struct {
 	oldCerts    []*lib.QuorumCertificate
 	committeeAt func(rootHeight uint64) (lib.ValidatorSet, bool)
 	cached      bool // the victim validated the valid proposal before (holds a cached block result)
+	boundary    bool // constructed stake vector (exact threshold / threshold-1 subsets exist)
 }
 
 func pubkeysOf(vs lib.ValidatorSet, idx []int) [][]byte {
@@ -294,7 +295,11 @@ func (e *env) genCandidate(t *rapid.T) *cand {
 		c.honest, c.desc = true, "signers="+idxStr(s.idx)
 		return c
 	case "subset":
-		cat := rapid.SampledFrom([]string{"exact", "minus1", "maxbelow", "minabove", "any"}).Draw(t, "cat")
+		cats := []string{"exact", "minus1", "maxbelow", "minabove", "any"}
+		if e.boundary {
+			cats = []string{"exact", "minus1", "exact", "minus1", "any"}
+		}
+		cat := rapid.SampledFrom(cats).Draw(t, "cat")
 		s, ok := pickSubset(t, e.vs, cat)
 		if !ok {
 			s, _ = pickSubset(t, e.vs, "maxbelow")
@@ -305,6 +310,8 @@ func (e *env) genCandidate(t *rapid.T) *cand {
 		}
 		c := e.signed(kind, nil, e.vs, s.idx)
 		c.honest, c.nontrivial = true, true
+		tot, _, _ := nodesim.Power(e.vs, nil)
+		c.classes = append(c.classes, fmt.Sprintf("subset-power-vs-threshold=%+d@T%%3=%d", clampCmp(new(big.Int).Sub(s.power, threshold(e.vs))), new(big.Int).Mod(tot, big.NewInt(3)).Int64()))
 		c.classes = append(c.classes, "subset="+cat, fmt.Sprintf("subset-power-vs-threshold=%+d", clampCmp(new(big.Int).Sub(s.power, threshold(e.vs)))))
 		c.desc = fmt.Sprintf("%s signers=%s power=%s thr=%s", cat, idxStr(s.idx), s.power, threshold(e.vs))
 		return c
@@ -789,6 +796,7 @@ func takeSnap(t *rapid.T, n *nodesim.Node, working bool) snap {
 }
 
 var prefixKinds = []string{"send", "send", "stake-new", "edit-stake-up", "edit-stake-up", "send-broke", "subsidy"}
+var frozenKinds = []string{"send", "send", "send", "send-broke", "double-spend", "bad-sig", "send-self"}
 var blockKinds = []string{"send", "send", "send", "send-broke", "double-spend", "edit-stake-up", "bad-sig"}
 
 func TestC02Gate(t *testing.T) {
@@ -800,6 +808,16 @@ func runChain(t *rapid.T, rec *ev.Rec) {
 	sim := nodesim.NewSim()
 	defer sim.Close()
 	w := nodesim.GenWorld(t, 1)
+	// half of the chains use a CONSTRUCTED stake vector: total power of a chosen residue mod 3 with subsets that sum exactly to
+	// threshold-1 and to threshold; staking changes are then left out so the construction survives
+	boundary := rapid.Bool().Draw(t, "boundaryStakes")
+	pKinds, bKinds := prefixKinds, blockKinds
+	residue := -1
+	if boundary {
+		residue = rapid.IntRange(0, 2).Draw(t, "totalMod3")
+		w.Stakes = nodesim.BoundaryStakes(t, w.NVals, residue)
+		pKinds, bKinds = frozenKinds, frozenKinds
+	}
 	ring := nodesim.NewKeyRing(w.NVals + w.Spare)
 	mk := func(name string, key int) *nodesim.Node {
 		n, err := sim.NewNode(nodesim.NodeOpts{Name: name, Genesis: w.Genesis(0), Key: keys.BLS(key)})
@@ -838,7 +856,7 @@ func runChain(t *rapid.T, rec *ev.Rec) {
 	// prefix: staking changes so that committees differ between root heights
 	prefix := rapid.IntRange(0, 3).Draw(t, "prefix")
 	for i := 0; i < prefix; i++ {
-		addTxs(prefixKinds, rapid.IntRange(1, 4).Draw(t, "nTx"))
+		addTxs(pKinds, rapid.IntRange(1, 4).Draw(t, "nTx"))
 		vs, _ := a.Committee(a.Height())
 		s, _ := pickSubset(t, vs, "above")
 		r, err := g.Step(nodesim.StepOpts{Proposer: 0, Signers: s.idx})
@@ -848,7 +866,7 @@ func runChain(t *rapid.T, rec *ev.Rec) {
 	}
 	attackHeights := rapid.IntRange(1, 2).Draw(t, "attackHeights")
 	for ah := 0; ah < attackHeights; ah++ {
-		addTxs(blockKinds, rapid.IntRange(1, 5).Draw(t, "nTx"))
+		addTxs(bKinds, rapid.IntRange(1, 5).Draw(t, "nTx"))
 		vs0, _ := a.Committee(a.Height())
 		s0, _ := pickSubset(t, vs0, "above")
 		res, err := g.Certify(0, s0.idx, 0)
@@ -856,7 +874,7 @@ func runChain(t *rapid.T, rec *ev.Rec) {
 			t.Fatalf("certify: %v %v", err, res.ProduceErr)
 		}
 		e := &env{a: a, b: b, ring: ring, p: res.Proposal, base: res.QC, vs: res.Committee, rootH: res.QC.Header.RootHeight, height: res.Height,
-			leader: a.C.PublicKey, oldCerts: g.Certified, committeeAt: committeeAt}
+			leader: a.C.PublicKey, oldCerts: g.Certified, committeeAt: committeeAt, boundary: boundary}
 		committees[e.rootH] = e.vs
 		// another valid block of the same height
 		addTxs([]string{"send"}, 1)
